@@ -20,9 +20,9 @@
 #include <stdlib.h>
 
 enum { O_END = 0, O_READY, O_ADD_TASKS, O_SET_TASKS, O_DONE_TASK, O_SET_TASKS0, O_TAKE_TASK,
-       O_ADD_ACTIONS, O_SET_ACTIONS, O_DONE_ACTION, O_SET_ACTIONS0, O_TAKE_ACTION, O_POLL };
+       O_ADD_ACTIONS, O_SET_ACTIONS, O_DONE_ACTION, O_SET_ACTIONS0, O_TAKE_ACTION, O_POLL, O_SET_ABS };
 static const char *onm[] = { "end", "ready", "add_tasks", "set_tasks", "done_task", "set_tasks0", "take_task",
-                             "add_actions", "set_actions", "done_action", "set_actions0", "take_action", "poll" };
+                             "add_actions", "set_actions", "done_action", "set_actions0", "take_action", "poll", "set_tasks_abs" };
 typedef struct { int op, n, post; } step_t;           /* post: 1 = the new units go to the mailbox, 0 = kept by the caller */
 #define MAXSTEPS 8
 typedef struct {
@@ -31,6 +31,12 @@ typedef struct {
     int init_tasks[3], init_actions[3]; /* units held by each thread at start (created sequentially through the module) */
     int nthreads;
     step_t script[3][MAXSTEPS];
+    /* "racy set" scenarios (the quantifier of C10 includes concurrent add/SET operations): one thread calls the absolute
+     * set_nb_tasks(n) while another thread's relative updates move nb_tasks across zero; every thread keeps a pending action
+     * until the sequential epilogue, so no termination may be reported while the threads run.  The task count left after the
+     * race depends on the linearisation order: it must be one of allowed[0..nallowed) (atomicity of the update itself); the
+     * epilogue then completes that many tasks and releases the actions one by one: termination exactly once, at the very end. */
+    int nallowed, allowed[4];
 } scen_t;
 
 static const parsec_termdet_base_module_t *M;
@@ -142,6 +148,10 @@ static void body(void *arg)
         case O_POLL:
             poll_state(me);
             break;
+        case O_SET_ABS:
+            CS_CHECK(S->nallowed > 0 && held_actions[me] > 0, "harness: set_tasks_abs outside a racy-set scenario / without holding an action");
+            RET(M->taskpool_set_nb_tasks(tp, st->n));      /* ground truth is reconciled in the epilogue */
+            break;
         }
     }
     cur_step[me] = -1;
@@ -177,6 +187,18 @@ static void run_scen(const scen_t *s)
 #endif
     cs_body_t b[3] = { body, body, body }; void *a[3] = { (void *)0, (void *)1, (void *)2 };
     cs_run(s->nthreads, b, a);
+    if (s->nallowed) {
+        /* sequential epilogue of a racy-set scenario */
+        CS_CHECK(cb_count == 0, "harness: callback during a racy-set run went unnoticed");
+        int n = tp->nb_tasks, ok = 0, acts = 0;
+        for (int k = 0; k < s->nallowed; k++) if (n == s->allowed[k]) ok = 1;
+        for (int t = 0; t < s->nthreads; t++) acts += held_actions[t];
+        CS_CHECK(ok, "after set_nb_tasks raced with relative updates nb_tasks is %d, which no order of the (atomic) operations produces (nb_pending_actions=%d)", n, tp->nb_pending_actions);
+        outstanding = n + acts; memset(held_tasks, 0, sizeof(held_tasks));
+        cs_observe("left=%d ", n);
+        for (int k = 0; k < n; k++) { outstanding--; M->taskpool_addto_nb_tasks(tp, -1); }
+        for (int t = 0; t < s->nthreads; t++) while (held_actions[t] > 0) { held_actions[t]--; outstanding--; M->taskpool_addto_runtime_actions(tp, -1); }
+    }
     /* end of the execution: every token has been given back and ready() was called */
     CS_CHECK(outstanding == 0 && ready_returned, "harness: script did not return all tokens (outstanding=%d)", outstanding);
     CS_CHECK(cb_count == 1, "all work is done and the taskpool is ready but termination was %s (monitor=%p nb_tasks=%d nb_pending_actions=%d)",
@@ -266,6 +288,12 @@ static const scen_t scen[] = {
         { {O_ADD_ACTIONS,1,0}, {O_DONE_TASK,0,0}, {O_DONE_ACTION,0,0}, E },
         { {O_ADD_ACTIONS,1,0}, {O_DONE_TASK,0,0}, {O_DONE_ACTION,0,0}, E },
         { {O_POLL,0,0}, {O_POLL,0,0}, E } } },
+    /* racy set_nb_tasks (see scen_t): B set(3) vs the last completion 1 -> 0; C set(2) vs the first discovery 0 -> 1;
+     * D set(2) vs 0 -> 1 -> 0; A' set(0) by the holder of the only task vs a discovery by another thread */
+    { "set_abs_vs_last_done", 1, {0,1,0}, {1,1,0}, 2, { { {O_SET_ABS,3,0}, E }, { {O_DONE_TASK,0,0}, E }, { E } }, 2, {2,3} },
+    { "set_abs_vs_first_add", 1, {0,0,0}, {1,1,0}, 2, { { {O_SET_ABS,2,0}, E }, { {O_ADD_TASKS,1,0}, E }, { E } }, 2, {2,3} },
+    { "set_abs_vs_add_done",  1, {0,0,0}, {1,1,0}, 2, { { {O_SET_ABS,2,0}, E }, { {O_ADD_TASKS,1,0}, {O_DONE_TASK,0,0}, E }, { E } }, 2, {1,2} },
+    { "set_abs0_vs_add",      1, {1,0,0}, {1,1,0}, 2, { { {O_SET_ABS,0,0}, E }, { {O_ADD_TASKS,1,0}, E }, { E } }, 2, {0,1} },
 #else
     /* minimal DTD-like pair: the master inserts two tasks while not ready, then declares ready; one worker completes them */
     { "dtd_min_master_worker", 0, {0,0,0}, {0,0,0}, 2, {
@@ -292,9 +320,10 @@ static const scen_t scen[] = {
 };
 #define NSCEN ((int)(sizeof(scen) / sizeof(scen[0])))
 #define R(i) static void run_##i(void) { run_scen(&scen[(i) < NSCEN ? (i) : 0]); }
-R(0) R(1) R(2) R(3) R(4) R(5) R(6) R(7) R(8) R(9) R(10) R(11) R(12) R(13) R(14) R(15)
-static void (*runners[])(void) = { run_0, run_1, run_2, run_3, run_4, run_5, run_6, run_7, run_8, run_9, run_10, run_11, run_12, run_13, run_14, run_15 };
-static cs_scenario_t scenarios[16];
+R(0) R(1) R(2) R(3) R(4) R(5) R(6) R(7) R(8) R(9) R(10) R(11) R(12) R(13) R(14) R(15) R(16) R(17) R(18) R(19)
+static void (*runners[])(void) = { run_0, run_1, run_2, run_3, run_4, run_5, run_6, run_7, run_8, run_9, run_10, run_11, run_12, run_13, run_14, run_15, run_16, run_17, run_18, run_19 };
+_Static_assert(NSCEN <= 20, "one runner per scenario");
+static cs_scenario_t scenarios[20];
 static void setup(void)
 {   /* one-time lazy initialisation of the class system outside the controlled runs */
     parsec_taskpool_t *t = calloc(1, sizeof(*t)); PARSEC_OBJ_CONSTRUCT_WRELEASE(t, parsec_taskpool_t, my_release);
